@@ -2,7 +2,7 @@
    machine of the element's type, by its library template), what the SCHEMA allows below it.  The lemmas take the row check of C03 as a
    hypothesis; the Properties files supply it. *)
 From MX Require Import Spec.Particle Spec.Deriv Spec.Equiv Gen.Names Gen.Schema Gen.Templates Gen.Lib Model.Tables Model.AbsSeq Model.AbsSeqC02 Model.Classes
-  Model.SeqIds Model.AbsBag Model.Doc.
+  Model.SeqIds Model.AbsBag Model.ChoiceSeq Model.ChoiceClass Model.ChoiceC02 Model.Doc.
 From Coq Require Import List String Bool Permutation.
 Import ListNotations.
 Open Scope string_scope.
@@ -11,12 +11,13 @@ Definition elem_row (tag:positive) : option (string * option particle * option p
   match find (fun p => Pos.eqb (fst p) tag) sym_table with None => None | Some (_, n) =>
   match find (fun p => String.eqb (fst p) n) xsd_elements with None => None | Some (_, ty) =>
   match find (fun r => String.eqb (fst (fst r)) (strip_anon ty)) cm_rows with Some r => Some r | None => Some (ty, None, None) end end end.
-(* the machine the parser's element gets: by the library template of the element's type (sequence class, bag class); no children for
+(* the machine the parser's element gets: by the library template of the element's type (sequence class, choice class, bag class); no children for
    elements of simple / empty types; nothing for the other types *)
 Definition elem_tpl (tag:positive) : option ntpl :=
   match elem_row tag with
   | Some (_, Some x, Some l) =>
       if Classes.is_seq l then option_map TSeq (stree_of l)
+      else if is_cseq l then match slots_of l with Some t => if forallb c02_ok t then Some (TChoice t) else None | None => None end
       else match bag_of 10 l with Some (a, mn) => if Nat.leb mn 1 then Some (TBag a mn) else None | None => None end
   | Some (_, None, None) => Some (TSeq (SNode false []))
   | _ => None end.
@@ -45,8 +46,11 @@ Proof.
       * destruct (stree_of l) as [t'|] eqn:St; [|discriminate]. intros E. injection E as <-.
         destruct (is_seq_parts l S) as (t'' & St' & W & ND). rewrite St in St'. injection St' as <-.
         split; [split; [exact W|exact ND]|]. intros w. simpl. rewrite Q. apply (stree_of_lang l t' St).
-      * destruct (bag_of 10 l) as [[a mn]|] eqn:B; [|discriminate]. destruct (Nat.leb mn 1) eqn:M; [|discriminate]. intros E. injection E as <-.
-        split; [apply Nat.leb_le; exact M|]. intros w. simpl. rewrite Q. apply (bag_of_lang 10 l a mn B).
+      * destruct (is_cseq l) eqn:Cs.
+        -- destruct (slots_of l) as [t'|] eqn:St; [|discriminate]. destruct (forallb c02_ok t') eqn:G; [|discriminate]. intros E. injection E as <-.
+           destruct (is_cseq_nodup l t' Cs St) as [W ND]. split; [split; [exact W|split; [exact G|exact ND]]|]. intros w. simpl. rewrite Q. apply (slots_of_lang l t' St).
+        -- destruct (bag_of 10 l) as [[a mn]|] eqn:B; [|discriminate]. destruct (Nat.leb mn 1) eqn:M; [|discriminate]. intros E. injection E as <-.
+           split; [apply Nat.leb_le; exact M|]. intros w. simpl. rewrite Q. apply (bag_of_lang 10 l a mn B).
     + intros E. injection E as <-. split; [split; [reflexivity|constructor]|]. intros w. simpl. tauto.
   - intros E. injection E as <-. split; [split; [reflexivity|constructor]|]. intros w. simpl. tauto.
 Qed.
@@ -56,7 +60,10 @@ Proof.
   destruct (elem_tpl_sound tag t E) as [K Q]. apply ngood; [exact K|apply Q; exact Lw].
 Qed.
 Lemma elem_perm tag s0 w s : elem_start tag = Some s0 -> nfeed w s0 = Some s -> Permutation (nord s) (tagged 0 w).
-Proof. unfold elem_start. destruct (elem_tpl tag) as [t|]; [|discriminate]. intros S0 F. injection S0 as <-. eapply nperm; eauto. Qed.
+Proof.
+  unfold elem_start. destruct (elem_tpl tag) as [t|] eqn:E; [|discriminate]. intros S0 F. injection S0 as <-.
+  destruct (elem_tpl_sound tag t E) as [K _]. eapply nperm; eauto.
+Qed.
 Lemma elem_sound tag s : elem_okst tag s -> nfin s = true -> elem_lang tag (names (nord s)).
 Proof.
   unfold elem_okst. destruct (elem_tpl tag) as [t|] eqn:E; [|contradiction]. intros O R. destruct (elem_tpl_sound tag t E) as [_ Q]. apply Q. apply nsound; auto.
